@@ -111,6 +111,17 @@ def main():
         got = accept("XrMapRepr", "XrMapRepr.cfg", evs)
         ok &= got == want
         print("  [%s] XrMapRepr %-40s %s" % ("ok " if got == want else "BAD", n, "accepted" if got else "rejected"))
+    st = lambda w, ln, by, tb: [{"ev": "Str", "w": w, "len": ln, "bytes": by, "table": tb}]
+    for n, evs, want in [
+        ("ascii without table", st([1, 1, 1], 3, 3, []), True),
+        ("non-ascii with exact table", st([1, 2, 4, 1], 4, 8, [0, 1, 3, 7]), True),
+        ("non-ascii WITHOUT table (len in bytes)", st([1, 2], 3, 3, []), False),
+        ("table off by one", st([1, 2, 1], 3, 4, [0, 1, 2]), False),
+        ("len differs from characters", st([1, 1], 3, 2, []), False),
+    ]:
+        got = accept("XrStrRepr", "XrStrRepr.cfg", evs)
+        ok &= got == want
+        print("  [%s] XrStrRepr %-40s %s" % ("ok " if got == want else "BAD", n, "accepted" if got else "rejected"))
     print("SELFTEST", "PASSED" if ok else "FAILED")
     return 0 if ok else 1
 
